@@ -65,7 +65,7 @@ def _check_cli(cases):
     traces = []
     wd = par.workdir()
     hook = os.path.join(wd, "cli_hook.ndjson")
-    paths = {"FILE1": os.path.join(wd, "FILE1"), "FILE2": os.path.join(wd, "FILE2"), "CLIM": os.path.join(wd, "CLIM"),
+    paths = {"FILE1": os.path.join(wd, "FILE1"), "FILE2": os.path.join(wd, "FILE2"), "CLIM": os.path.join(wd, "CLIM"), "CLIM2": os.path.join(wd, "CLIM2"),
              "CFG": os.path.join(wd, "CFG"), "CFG2": os.path.join(wd, "CFG2"), "MISSINGFILE": os.path.join(wd, "does-not-exist")}
     written = None
     for c in cases:
@@ -73,6 +73,7 @@ def _check_cli(cases):
             mat.write_text(paths["FILE1"], c["files"][0])
             mat.write_text(paths["FILE2"], c["files"][1], row_order="reverse")
             mat.write_text(paths["CLIM"], c["clim"])
+            mat.write_text(paths["CLIM2"], c["clim2"])
             written = True
         exp = c["expected"]
         outputs = []
@@ -194,7 +195,19 @@ def run(ctx):
         rng = random.Random(ctx.seed)
         bad = [c for c in cli if c["expected"]["status"] != "ok"]
         ok = [c for c in cli if c["expected"]["status"] == "ok"]
+        full = cli
         cli = rng.sample(bad, min(len(bad), 110)) + rng.sample(ok, min(len(ok), 150))
+        # every option group takes part in at least three sampled command lines
+        count = {}
+        for c in cli:
+            for g in c["groups"]:
+                count[tuple(g)] = count.get(tuple(g), 0) + 1
+        for c in full:
+            need = [g for g in c["groups"] if count.get(tuple(g), 0) < 3]
+            if need and c not in cli:
+                cli.append(c)
+                for g in c["groups"]:
+                    count[tuple(g)] = count.get(tuple(g), 0) + 1
     recorded = []
     for n, divs, traces in par.pmap(_check_cli, [cli[i:i + 6] for i in range(0, len(cli), 6)], chunk=1):
         ctx.evaluations += n
